@@ -25,6 +25,8 @@ ALSO = {
     "C16-readoptions-trailing-empty": ["C01"], "C01-deliversm-receipt-trim": ["C11"], "C18-report-dest-20-of-21": ["C01"], "C11-cmpp30-dest-clamp-and-pad": ["C03"],
     "C17-string-parse-prefix-cache": ["C13"], "C07-ucs2-boundary-low-surrogate": ["C14", "C06"], "C08-unpack-eighth-septet-test": ["C05"],
     "C14-packed-boundary-skipped-when-lengths-equal": ["C06", "C07"],
+    "C20-readexactly-buffer-view": ["C12"], "C04-shared-prefix-scratch": ["C13"], "C16-tlv-bytes-u16-sum": ["C01"], "C02-cmpp30-dest-cut-unbounded": ["C01", "C11"],
+    "C11-submitsmresp-body-omitted-on-error": ["C01", "C02"], "C06-pack-filler-on-full-octets": ["C08", "C05"], "C01-bindresp-header-only-drops-tlvs": ["C11", "C02"],
     "C12-reader-scratch-view": ["C13"], "C13-shared-sorter": ["C09"], "C07-total-from-size": ["C06"], "C03-cmpp20-dest-block-u8": ["C01"],
 }
 
